@@ -89,14 +89,34 @@ NestProg(c) == <<D(Step(c.g, Step(c.f, Attr(Var("q"), "k")))), T(<<124>>), D(Att
                  D(Step(c.g, Step(c.f, Attr(Var("o"), "Items")))), T(<<124>>), D(Attr(Var("o"), "Items")), T(<<124>>),
                  D(Step(c.f, Attr(Var("p"), "Items"))), T(<<124>>), D(Attr(Var("p"), "Items"))>>
 
+\* family 6: two results of the same filter alive at once (applied to two values of the same shape)
+Y == Var("y")
+PairData == [ lists |-> [x |-> VL(I3), y |-> VL(<<VI(9), VI(8), VI(7)>>)],
+              ints  |-> [x |-> VLg(I3, "ints"), y |-> VLg(<<VI(9), VI(8), VI(7)>>, "ints")],
+              strs  |-> [x |-> VLg(S3, "strs"), y |-> VLg(<<VS(<<122>>), VS(<<121>>), VS(<<120>>)>>, "strs")],
+              maps  |-> [x |-> VM(<<VS(<<97>>), VS(<<98>>)>>, <<VI(1), VI(2)>>), y |-> VM(<<VS(<<112>>), VS(<<113>>)>>, <<VI(7), VI(8)>>)],
+              msis  |-> [x |-> VMg(<<VS(<<97>>), VS(<<98>>)>>, <<VI(1), VI(2)>>, "msi"), y |-> VMg(<<VS(<<112>>), VS(<<113>>)>>, <<VI(7), VI(8)>>, "msi")] ]
+PairSteps == {"sort", "reverse", "slice", "slicetail", "keys", "merge", "default"}
+PairCases == {[fam |-> "pair", d |-> d, f |-> f, form |-> fo] : d \in DOMAIN PairData, f \in PairSteps, fo \in {"sets", "nested", "array"}}
+PairProg(c) ==
+    CASE c.form = "sets"   -> <<Set("a", Step(c.f, X)), Set("b", Step(c.f, Y)), D(Var("a")), T(<<124>>), D(Var("b")), T(<<124>>), D(Var("a")), T(<<124>>), D(X), T(<<124>>), D(Y)>>
+      [] c.form = "nested" -> <<D(FA("merge", Step(c.f, X), <<Step(c.f, Y)>>)), T(<<124>>), D(X), T(<<124>>), D(Y)>>
+      [] c.form = "array"  -> <<D(Arr(<<Step(c.f, X), Step(c.f, Y), Step(c.f, X)>>)), T(<<124>>), D(X)>>
+PairOK(c) == (c.d \in {"maps", "msis"} => c.f \in {"keys", "default", "merge"}) /\ (c.d \notin {"maps", "msis"} => c.f # "keys")
+\* family 7: merge with several arguments of mixed kinds on the caller's data: whatever the result is, the data stay as they are
+MergeArgs == {Var("undefinedvar"), Lit(Null), Arr(<<LI(9)>>), LS(<<115>>), LI(4), Hash(<<LS(<<122>>), LS(<<97>>)>>, <<LI(9), LI(8)>>), X}
+MergeArgCases == {[fam |-> "mergeargs", d |-> d, a1 |-> a1, a2 |-> a2] : d \in {"any", "ints", "map", "msi"}, a1 \in MergeArgs, a2 \in MergeArgs}
+MergeArgProg(c) == <<D(FA("merge", X, <<c.a1, c.a2>>)), T(<<124>>), D(X)>>
+
 \* a context with many keys (size classes of the engine's pooled maps) and top-level writes
 BigKeys == {"k01", "k02", "k03", "k04", "k05", "k06", "k07", "k08", "k09", "k10", "k11", "k12", "k13", "k14", "k15", "k16", "k17", "k18", "k19", "k20"}
 BigCtx(n) == [k \in {kk \in BigKeys : \E i \in 1..n : kk = (IF i < 10 THEN "k0" \o ToString(i) ELSE "k" \o ToString(i))} |-> VI(1)] @@ ("x" :> VL(I3))
 BigCases == {[fam |-> "bigctx", n |-> n, w |-> w] : n \in {3, 15, 16, 17, 20}, w \in {"set", "loopvar", "setinloop", "macroparam"}}
 BigProg(c) == <<Set("k01", LI(5)), Set("fresh", LI(6))>> \o WriteProg([w |-> c.w]) \o <<PrintS(Var("k01")), PrintS(Var("k02"))>>
-Prog(c) == CASE c.fam = "bigctx" -> BigProg(c) [] c.fam = "chain" -> ChainProg(c) [] c.fam = "reobs" -> ReobsProg(c)
+Prog(c) == CASE c.fam = "bigctx" -> BigProg(c) [] c.fam = "pair" -> PairProg(c) [] c.fam = "mergeargs" -> MergeArgProg(c) [] c.fam = "chain" -> ChainProg(c) [] c.fam = "reobs" -> ReobsProg(c)
              [] c.fam = "write" -> WriteProg(c) [] c.fam = "nested" -> NestProg(c)
-CtxOf(c) == IF c.fam = "nested" THEN NestCtx ELSE IF c.fam = "bigctx" THEN BigCtx(c.n) ELSE ("x" :> Data[c.d])
+CtxOf(c) == IF c.fam = "nested" THEN NestCtx ELSE IF c.fam = "bigctx" THEN BigCtx(c.n)
+            ELSE IF c.fam = "pair" THEN ("x" :> PairData[c.d].x) @@ ("y" :> PairData[c.d].y) ELSE ("x" :> Data[c.d])
 Tp(c) == ("main" :> Prog(c)) @@ ("t1" :> <<D(X), Set("x", LI(0))>>) @@ ("t2" :> <<Set("x", LI(9)), D(X)>>)
 Ref(c) == Render(MkW(Tp(c), {}, {}, NoFault), "main", CtxOf(c))
 
@@ -106,18 +126,21 @@ CaseOf(c) ==
      tags |-> {"fam:" \o c.fam} \cup (IF "d" \in DOMAIN c THEN {"d:" \o c.d} ELSE {})
               \cup (IF c.fam = "chain" THEN {"f:" \o c.fs[i] : i \in 1..Len(c.fs)} ELSE {})
               \cup (IF c.fam \in {"reobs", "nested"} THEN {"f:" \o c.f, "f:" \o c.g} ELSE {})
-              \cup (IF c.fam \in {"write", "bigctx"} THEN {"w:" \o c.w} ELSE {}),
+              \cup (IF c.fam \in {"write", "bigctx"} THEN {"w:" \o c.w} ELSE {}) \cup (IF c.fam = "pair" THEN {"f:" \o c.f, "form:" \o c.form} ELSE {}),
      entry |-> "main", ctx |-> CtxOf(c),
      runs |-> {[label |-> c.fam, tp |-> Sources(Tp(c), LMin), xcalls |-> [id \in {} |-> 0], shared |-> 2]},
-     expect |-> [ok |-> ref.ok, out |-> ref.out, err |-> ref.err, calls |-> [id \in {} |-> 0]]]
+     \* (what merge makes of arguments of mixed kinds is not stated: only the caller's data and the repeatability are checked)
+     expect |-> IF c.fam = "mergeargs" THEN [ok |-> TRUE, anyoutcome |-> TRUE, out |-> <<>>, noout |-> TRUE, err |-> "", calls |-> [id \in {} |-> 0]]
+                ELSE [ok |-> ref.ok, out |-> ref.out, err |-> ref.err, calls |-> [id \in {} |-> 0]]]
 
-Fams == {"chain", "reobs", "write", "nested", "bigctx"}
-All == ChainCases \cup ReobsCases \cup WriteCases \cup NestCases \cup BigCases
+Fams == {"chain", "reobs", "write", "nested", "bigctx", "pair", "mergeargs"}
+All == ChainCases \cup ReobsCases \cup WriteCases \cup NestCases \cup BigCases \cup PairCases \cup MergeArgCases
 Init == cs \in {[part |-> f] : f \in Fams}
 Valid(c) == CASE c.fam = "chain" -> ChainOK(c.d, c.fs)
              [] c.fam = "reobs" -> (IsMapData(c.d) => c.f \in MapFirstSteps /\ (c.f \in {"default", "mergeself"} => c.g \in MapFirstSteps))
+             [] c.fam = "pair" -> PairOK(c)
              [] OTHER -> TRUE
-Next == "part" \in DOMAIN cs /\ cs' \in {c \in All : c.fam = cs.part /\ Valid(c) /\ Ref(c).ok}
+Next == "part" \in DOMAIN cs /\ cs' \in {c \in All : c.fam = cs.part /\ Valid(c) /\ (c.fam = "mergeargs" \/ Ref(c).ok)}
 Spec == Init /\ [][Next]_cs
 IsCase == "fam" \in DOMAIN cs
 Emit == IsCase => PrintT(ToJson(CaseOf(cs)))
